@@ -516,6 +516,8 @@ def main(tier):
     results += pmap(run_list, [(n, o, False) for n in (1, 2, 3) for o in ((0, 1, 2), (2, 1, 0))])
     for r in results:
         agg.add(r)
+    from . import mainwire
+    mainwire.add_to(agg, PROP, binary)
     by_role = {}
     for v in agg.violations:
         by_role.setdefault(v['role'], []).append(v)
@@ -549,7 +551,7 @@ def main(tier):
                      'stderr, to_writer_pretty, write_fmt and process::exit are recording stubs'],
         stubs=['std::io::stderr / Stderr::lock', 'serde_json::to_writer_pretty (records its argument)', 'Write::write_fmt', 'process::exit (ends the path)',
                'ValidatorSync::validate for model validators in the merge harness'],
-        must_cover=['exit0', 'exit1', 'merge-ok', 'merge-err', 'two validators on one file', 'parsed', 'rejected', 'default', 'list'],
+        must_cover=['main', 'exit0', 'exit1', 'merge-ok', 'merge-err', 'two validators on one file', 'parsed', 'rejected', 'default', 'list'],
         explanation='exit code and printed map compared with the severities chosen by the solver on every path; merged map compared with the union of the validators\' maps under several iteration orders')
 
 
